@@ -94,6 +94,9 @@ TRIAGE = {
     "e184c5f3ef": "file (unbundle) RAM bundles: outside C20",
     "1d60d9147b": "file (unbundle) RAM bundles: outside C20",
     "ffce853adc": "equivalent: `break` -> `continue` in a column-scanning loop of `RevTokenIter::next`; once the guard `idx >= col` holds it holds for the rest of the line and nothing is added",
+    "cef11bffad": "equivalent for the public API (as 2e3d44041f: the old-id slot of `sources_mapping` is read by `rewrite` only, which goes through `add_token`)",
+    "2e790904db": "equivalent: assigning an equal value",
+    "8c94c9191c": "equivalent with the `unicode-id-start` tables in use: U+200C / U+200D then fall through to `is_id_continue_unicode`, which accepts them (the harness probes the crate's predicate for every non-ASCII character of every case, so a difference would have been a `pool-mismatch`)",
     "6812f09c9a": "`split_path` is used by `find_common_prefix` (the `~` option of `rewrite`) only, not by `make_relative_path`: outside C19; C09 holds for explicit prefixes and for whatever `~` computes (the stripped prefix is part of its statement)",
 }
 
